@@ -123,6 +123,21 @@ def check_line(eng, d, path, lineno, line, oc):
             ok = False
         if opt is None:
             first_out = out
+        # resolution clause, on the implementation alone: an ID / RID / ZID target with exactly one
+        # owning note opens that note's page
+        if len(mt) == 1 or opt is not None:
+            t = mt[0] if len(mt) == 1 else (mt[-1] if opt == -1 else (mt[opt - 1] if 1 <= opt <= len(mt) else None))
+            owners = None
+            if t and t.startswith("[#") and t.endswith("]"):
+                owners = sorted({p for (k, v, p, z) in IDS if k == "ID" and v == t[2:-1]})
+            elif t and t.startswith("[@") and t.endswith("]"):
+                owners = [p for (k, v, p, z) in IDS if k == "RID" and v == t[2:-1]]
+            elif t and is_zid(t):
+                owners = [p for (z, p) in ZIDS if z == t]
+            if owners is not None and len(owners) == 1 and (not out or out[0] != "EDIT " + owners[0]):
+                oc.spec_fail.append(({"line": line, "file": path, "opt": opt}, out,
+                                     {"target": t, "owner_page": owners[0]}, None))
+                ok = False
         # option-k law on the implementation: same as a line containing only the k-th target
         if opt is not None and first_out and first_out[0].startswith("PROMPT ") and opt != len(mt) + 1:
             offered = first_out[0][7:].split(" ")
